@@ -31,7 +31,7 @@ fn gen_stmt(r: &mut Rng, keys: &[i64], init: &Init) -> Stmt {
 fn main() {
     let a = args();
     let mut r = Rng::new(a.seed);
-    let mut cw = CaseWriter::new(&a.out, "Corr.C13", 400);
+    let mut cw = CaseWriter::new(&a.out, "Corr.C13", 100);
     let mut rep = Report::new(&a.out);
     let mut hist = std::collections::BTreeMap::<String, u64>::new();
     let mut nontrivial = std::collections::BTreeSet::<String>::new();
